@@ -20,16 +20,16 @@ pub fn def() -> PropDef {
             "Fmt_FullScale", "Fmt_IntPad", "Fmt_IntPadLimit", "Fmt_WithInteger", "Fmt_NoInteger_RoundBeforeDigits", "Fmt_NoInteger_Sig",
             "Fmt_RoundNoCarry", "Fmt_RoundCarry", "Fmt_RoundAllNines",
         ],
-        rule: "exhaustive small scope: every |n| < N (2000 quick, 10^5 thorough) x scale -3..8 x precision 0..9 through {:.P} and {:.Pe}, parsed back with the independent numeral recogniser and compared with the model (round to scale P / to P+1 significant digits under the default mode, exactly P fraction digits); seeded decimals to 300 digits, scales -1100..400, P in 0..1100 including P and (-scale)+P+1 around the padding limit 1000 +- 2, ties at the rounding digit (with stored trailing zeros), all-nines carries, values below half a unit of the last printed place, both signs, also judged against with_scale_round / with_precision_round; 34 flag combinations (width 0..60, fills * 0 space e-acute #, alignments < ^ >, '+', '0') on {} {:.P} {:e} {:.Pe} {:.PE} must equal the unflagged numeral padded by the std rules; value and reference renderings identical. distinct = distinct (decimal, P) pairs; non-trivial = digits are discarded by the requested precision",
+        rule: "exhaustive small scope: every |n| < N (10^4 quick, 10^5 thorough) x scale -3..8 x precision 0..9 through {:.P} and {:.Pe}, parsed back with the independent numeral recogniser and compared with the model (round to scale P / to P+1 significant digits under the default mode, exactly P fraction digits); seeded decimals to 300 digits, scales -1100..400, P in 0..1100 including P and (-scale)+P+1 around the padding limit 1000 +- 2, ties at the rounding digit (with stored trailing zeros), all-nines carries, values below half a unit of the last printed place, both signs, also judged against with_scale_round / with_precision_round; 34 flag combinations (width 0..60, fills * 0 space e-acute #, alignments < ^ >, '+', '0') on {} {:.P} {:e} {:.Pe} {:.PE} must equal the unflagged numeral padded by the std rules; value and reference renderings identical. distinct = distinct (decimal, P) pairs; non-trivial = digits are discarded by the requested precision",
     }
 }
 
 fn plan(tier: Tier) -> Vec<Unit> {
     match tier {
         Tier::Quick => {
-            let mut v = crate::util::split_budget_param("small", 2 * 2000 - 1, 100, 2000);
-            v.extend(crate::util::split_budget("random", 40_000, 1_000));
-            v.extend(crate::util::split_budget("flags", 6_000, 200));
+            let mut v = crate::util::split_budget_param("small", 2 * 10_000 - 1, 200, 10_000);
+            v.extend(crate::util::split_budget("random", 300_000, 3_000));
+            v.extend(crate::util::split_budget("flags", 30_000, 500));
             v
         }
         Tier::Thorough => {
@@ -174,7 +174,7 @@ pub fn gen_case(r: &mut Rng) -> (Dec, usize) {
             let keep = 1 + r.below(30) as usize;
             let mut ds = gen::digit_string(r, keep);
             ds.push('5');
-            let zeros = r.below(6) as usize;
+            let zeros = if r.bool() { r.below(6) as usize } else { r.below(70) as usize };
             ds.push_str(&"0".repeat(zeros));
             if r.chance(1, 4) { ds.push('1'); }
             let n: BigInt = ds.parse().unwrap();
@@ -196,7 +196,14 @@ pub fn gen_case(r: &mut Rng) -> (Dec, usize) {
             let s = ndigits(&n) as i64 + lead;
             (Dec::new(n, s), (lead + r.range(-2, 2)).max(0) as usize)
         }
-        6 => (Dec::new(BigInt::zero(), r.range(-30, 30)), r.range(0, 12) as usize),
+        6 => {
+            // zeros: near scales, and far negative scales with the precision around the padding limit
+            if r.bool() { (Dec::new(BigInt::zero(), r.range(-30, 30)), r.range(0, 12) as usize) } else {
+                let s = -r.range(0, 1100);
+                let p = match r.below(3) { 0 => (limit - (-s) - 1 + r.range(-3, 3)).clamp(0, 1100), 1 => r.range(0, 5), _ => r.range(0, 1100) };
+                (Dec::new(BigInt::zero(), s), p as usize)
+            }
+        }
         _ => {
             let d = gen::dec(r, 300, 400);
             let p = match r.below(3) { 0 => r.range(0, 12), 1 => (d.s + r.range(-3, 3)).clamp(0, 1100), _ => r.range(0, 400) };
